@@ -456,7 +456,7 @@ pub fn run_c17(ctx: &Ctx) -> i32 {
     }
     rep.sample(json!({"loader": "WormholeVerifier::new_from_bytes", "mutation": "bit 0 of verifier.bin flipped", "expected": "Err"}));
     rep.sample(json!({"files": FILES, "sizes": FILES.iter().map(|f| bins.read(f).len()).collect::<Vec<_>>()}));
-    rep.finish(ctx, ctx.tier.pick(500, 1000))
+    rep.finish(ctx, ctx.tier.pick(200, 1000))
 }
 
 pub struct InotifyWatch {
@@ -802,7 +802,7 @@ pub fn run_c16(ctx: &Ctx) -> i32 {
     }
     rep.sample(json!({"entry": "PrivateBatchProver::new", "deviation": "asset (position 0) = 1", "expected": "Err"}));
     rep.sample(json!({"entry": "PrivateBatchProver::new_from_bytes", "template": "dummy with non-zero exit account 1 (real leaf circuit)", "expected": "Err"}));
-    rep.finish(ctx, ctx.tier.pick(100, 120))
+    rep.finish(ctx, ctx.tier.pick(30, 60))
 }
 
 // ---------------------------------------------------------------------------
@@ -1014,5 +1014,5 @@ pub fn run_c18(ctx: &Ctx) -> i32 {
     if let Some((ai, p)) = proofs.first() {
         rep.sample(json!({"address": addrs[*ai].iter().map(|x| u(*x)).collect::<Vec<_>>(), "public_inputs_prefix": p.public_inputs[..12].iter().map(|x| u(*x)).collect::<Vec<_>>()}));
     }
-    rep.finish(ctx, ctx.tier.pick(4, 10))
+    rep.finish(ctx, ctx.tier.pick(3, 10))
 }
